@@ -226,7 +226,11 @@ pub trait TypedIterable {
         let new_offset_next = (self.offset_next() as isize + shift) as usize;
         self.set_offset_next(new_offset_next);
         let section = self.current_section()?;
+        let offset = self.offset().ok_or(DSError::VoidRecord)?;
         let parsed_packet = self.parsed_packet_mut();
+        parsed_packet.offset_edns = parsed_packet
+            .offset_edns
+            .map(|x| if x > offset { (x as isize + shift) as usize } else { x });
         if section == Section::NameServers
             || section == Section::Answer
             || section == Section::Question
